@@ -37,6 +37,9 @@ SparseCalls(s) ==
 
 RLCalls(s) ==
     {[op |-> "try_set", i |-> i, n |-> n] : i \in {0, s.len - 1, s.len, s.len + 1, s.len + 3} \cap Nat, n \in {0, 1, 2, 9}}
+    \* runs that would end beyond usize::MAX (length or start usize::MAX: token -1): refused, and nothing may be left behind
+    \cup {[op |-> "try_set", i |-> i, n |-> -1] : i \in {s.len, s.len + 1, s.len + 3} \ {0}}
+    \cup {[op |-> "try_set", i |-> -1, n |-> n] : n \in {1, 2}}
     \cup {[op |-> "set_len", n |-> n] : n \in {0, s.len - 1, s.len, s.len + 1, s.len + 4} \cap Nat}
 
 Calls(s) == IF s.kind = "sparse" THEN SparseCalls(s) ELSE RLCalls(s)
